@@ -1,20 +1,21 @@
 import Kio.Proofs.Prim
 import Kio.Model.Typing
+import Kio.Proofs.CodecRT
 /-!
 Round-trip lemmas for the entity codec (used by C01, C05, C06, C07).
 -/
 namespace Kio
 
 /-- structural equality test is sound -/
-theorem Value.beq_eq {a b : Value} (h : a.beq b = true) : a = b := by
-  sorry
+theorem Value.beq_eq {a b : Value} (h : a.beq b = true) : a = b :=
+  Value.beq_sound a b h
 
 /-- arrays: element-wise round trip lifts through `encMany` / `decMany` -/
 theorem decMany_encMany (e : Value → Except Err Bytes) (d : Dec Value) (vs : List Value)
     (h : ∀ v ∈ vs, ∀ bs, e v = .ok bs → ∀ rest, d (bs ++ rest) = .ok (v, rest))
     (out : Bytes) (he : encMany e vs = .ok out) (rest : Bytes) :
-    decMany d vs.length (out ++ rest) = .ok (vs, rest) := by
-  sorry
+    decMany d vs.length (out ++ rest) = .ok (vs, rest) :=
+  decMany_encMany' e d vs h out he rest
 
 /-- a primitive written by the writer the dispatch table picks is read back by the reader it
     picks (`optW`/`optR`: the `optional` flags writer and reader were looked up with) -/
@@ -22,18 +23,18 @@ theorem prim_roundtrip (env : Env) (ht : env.time = TimeCfg.repaired) (hfl : Flo
     (k : KType) (flex optW optR : Bool) (hopt : optW = optR ∨ k = .uuid) (w : PrimW) (r : PrimR)
     (hw : getWriter k flex optW = .ok w) (hr : getReader k flex optR = .ok r)
     (v : Value) (hv : primValueOk env k true v = true) (bs : Bytes) (he : w.run env v = .ok bs)
-    (rest : Bytes) : r.run env (bs ++ rest) = .ok (v, rest) := by
-  sorry
+    (rest : Bytes) : r.run env (bs ++ rest) = .ok (v, rest) :=
+  prim_roundtrip' env ht hfl k flex optW optR hopt w r hw hr v hv bs he rest
 
 /-- a coherent class has a reader and a writer (no build-time error) -/
 theorem wf_buildable (env : Env) (s : Schema) (hwf : s.wf env = true) :
-    s.readerBuildErr env = none ∧ s.writerBuildErr env = none := by
-  sorry
+    s.readerBuildErr env = none ∧ s.writerBuildErr env = none :=
+  wf_buildable' env s hwf
 
 /-- the plan-level round trip (mutual structural induction over Schema / fields / Field / Shape) -/
 theorem Schema.roundtrip (env : Env) (ht : env.time = TimeCfg.repaired) (hfl : FloatExact)
     (s : Schema) (v : Value) (bs : Bytes) (hwf : s.wf env = true) (hv : s.valueOk env v = true)
-    (he : s.write env v = .ok bs) (rest : Bytes) : s.read env (bs ++ rest) = .ok (v, rest) := by
-  sorry
+    (he : s.write env v = .ok bs) (rest : Bytes) : s.read env (bs ++ rest) = .ok (v, rest) :=
+  Schema.roundtrip' env ht hfl s v bs hwf hv he rest
 
 end Kio
